@@ -50,7 +50,12 @@ def main():
                 o = {'res': [], 'raised': False, 'exc': ''}
                 try:
                     if t['op'] == 'bin':
-                        if t.get('seen'):
+                        if t.get('adhoc') is not None:
+                            # a caller-supplied collection of seen rules (entries already erased), possibly empty
+                            coll = [(enc.dec_cat(a), enc.dec_cat(b)) for a, b in t['adhoc']]
+                            coll = frozenset(coll) if t.get('frozen') else set(coll)
+                            rs = mod.apply_binary_rules(x, y, coll)
+                        elif t.get('seen'):
                             rs = params(t['seen'])[0](x, y)
                         else:
                             rs = mod.apply_binary_rules(x, y)
